@@ -76,6 +76,14 @@ class C10(CheckBase):
                      'trim': rng.choice([0, 0, 1, 100, 255, 256, 300, 511])}
         else:
             image = dfswork.gen_image(rng)
+        if 'genflux' not in image and rng.chance(0.06):
+            # an uncompressed image may begin with any bytes at all, the two that open a gzip stream included: sector 0
+            # starts with the disc title (an MMB with its boot slots)
+            v0 = image['surfaces'][0]['volumes'][0] if image['surfaces'][0]['volumes'] else None
+            if v0 is not None and image['ext'] != 'mmb':
+                v0['title'] = b'\x1f\x8b' + rng.choice([b'\x08', b'\x08\x00', b'', b'AB'])
+            elif image['ext'] == 'mmb':
+                image['boot'] = [0x1F, 0x8B, 0x08, 0x00]
         drives = [(d, i) for d, i in dfswork.image_drives(image) if i is not None]
         drv, si = rng.choice(drives)
         s = dd.Surface.from_json(image['surfaces'][si])
